@@ -202,6 +202,8 @@ def run_monitors(cfg, items, endl, props=None):
                     d0 = dl.get(k)
                     if d0 is not None and now < d0:
                         viol("C05", i, "key %d disappeared between two observations at now=%d although its latest successful write expires at %d" % (k, now, d0))
+                        if kind in ("ut_map", "ut_set"):
+                            viol("C17", i, "the purge at the start of a lookup at now=%d removed key %d, which is live until %d" % (now, k, d0))
             op_since_probe = False
             last_probe, last_probe_now = pr, now
             # counts (C11/C14)
@@ -443,6 +445,8 @@ def run_monitors(cfg, items, endl, props=None):
                         viol("C05", i, "%s removed entries %s that had not reached their expiry" % (n, sorted(lost)))
                         if n == "clean":
                             viol("C17", i, "clean_expired_values() removed live entries %s" % sorted(lost))
+                        elif kind in ("ut_map", "ut_set"):
+                            viol("C17", i, "the purge at the start of %s removed live entries %s" % (n, sorted(lost)))
             for d_ in (uses, created, cnt):
                 for k in [k for k in d_ if k not in post_found]:
                     d_.pop(k, None)
